@@ -611,6 +611,10 @@ DoQuiesce(ln) ==
                  THEN {<<"C13", "LeadershipChangedInFaultFreeRun", g.leaders>>} ELSE {}
   IN Judge(vConv \cup vFsm \cup vNote \cup vStable, {}) /\ Keep /\ UNCHANGED g
 
+DoAssertLeader(ln) ==   \* the driver kept a majority of the voters answering ln.n all along (family leaseiso)
+  LET V == IF obs[ln.n].up /\ obs[ln.n].role = "L" THEN {} ELSE {<<"C13", "HealthyLeaderDeposed", <<ln.n, obs[ln.n].role, obs[ln.n].term>>>>}
+  IN Judge(V, {}) /\ Keep /\ UNCHANGED g
+
 DoStranded(ln) ==
   Judge({<<"C17", "FutureNeverResolved", <<ln.n, ln.op, ln.kind, ln.inapi, ln.nodeup>>>>}, {}) /\ Keep /\ UNCHANGED g
 
@@ -646,6 +650,7 @@ Next ==
        [] ln.ev = "faultsstopped" -> DoStopFaults(ln)
        [] ln.ev = "quiesce" -> DoQuiesce(ln)
        [] ln.ev = "stranded" -> DoStranded(ln)
+       [] ln.ev = "assertleader" -> DoAssertLeader(ln)
        [] ln.ev = "leak"    -> DoLeak(ln)
        [] OTHER             -> DoOther(ln)
 
